@@ -45,7 +45,8 @@ ScaleTags(ns) ==
 
 \* stairstep / fraction consistency of one reported conversion
 C19Tags(n, sk, fmin, fmax, eu, inrange, fresh, kept) ==
-       (IF n < 0 \/ n > 131 \/ sk # StairKey(IF n < 0 \/ n > 131 THEN 0 ELSE n) THEN {<<"C19", "stairstep">>} ELSE {})
+       \* note / 12 V, give or take two ulps (n * (1/12) instead of n / 12 is not an error)
+       (IF n < 0 \/ n > 131 \/ ~Near(sk, StairKey(IF n < 0 \/ n > 131 THEN 0 ELSE n), 2) THEN {<<"C19", "stairstep">>} ELSE {})
   \cup (IF eu > 2 THEN {<<"C19", "sum">>} ELSE {})
   \cup (IF fresh /\ inrange /\ allowed' = 0..11 /\ (fmin < -TolU \/ fmax >= SU + TolU)
           THEN {<<"C19", "fraction-chromatic">>} ELSE {})
